@@ -23,6 +23,8 @@ type ReplayResult struct {
 	Panic  string   `json:"panic"`
 	Covers []string `json:"covers"`
 	Race   bool     `json:"race,omitempty"` // the Go race detector reported a data race while this file ran
+	Outputs       []string `json:"outputs,omitempty"`        // what the harness handed to verifOutput
+	SeedDependent bool     `json:"seed_dependent,omitempty"` // Outputs differed between two fresh processes (fresh hash seeds, fresh map iteration orders)
 }
 
 // ReplayFile is the on-disk form of a counterexample.
@@ -66,6 +68,7 @@ type verifOutcome struct {
 	Failed []string ` + "`json:\"failed\"`" + `
 	Panic  string   ` + "`json:\"panic\"`" + `
 	Covers []string ` + "`json:\"covers\"`" + `
+	Outputs []string ` + "`json:\"outputs\"`" + `
 }
 
 func verifRunOneTimed(path string) verifOutcome {
@@ -96,6 +99,7 @@ func verifRunOne(path string) (out verifOutcome) {
 	defer func() {
 		out.Failed = verifFailed
 		out.Covers = verifCovers
+		out.Outputs = verifOutputs
 		if r := recover(); r != nil {
 			switch r.(type) {
 			case verifAssumeFailed:
@@ -138,7 +142,7 @@ func TestVerifReplay(t *testing.T) {
 }
 
 // NativeReplay runs the replay files in dir (all for one package) against /repo's working tree.
-func NativeReplay(repo, verifDir, pkgDir, pkgName string, harnessFiles map[string][]byte, harnessNames []string, dir string, timeout time.Duration, race bool) (map[string]ReplayResult, string, error) {
+func NativeReplay(repo, verifDir, pkgDir, pkgName string, harnessFiles map[string][]byte, harnessNames []string, dir string, timeout time.Duration, race bool, procs int) (map[string]ReplayResult, string, error) {
 	tmp, err := os.MkdirTemp("", "verif-replay-")
 	if err != nil {
 		return nil, "", err
@@ -172,7 +176,7 @@ func NativeReplay(repo, verifDir, pkgDir, pkgName string, harnessFiles map[strin
 	}
 	res := map[string]ReplayResult{}
 	var allOut bytes.Buffer
-	var skip []string
+	var skip, crashed []string
 	for round := 0; round < 12; round++ {
 		args := []string{"test", "-v", "-vet=off", "-count=1", "-overlay", ovPath, "-run", "^TestVerifReplay$", "-timeout", fmt.Sprintf("%ds", int(timeout.Seconds()))}
 		if race {
@@ -218,6 +222,42 @@ func NativeReplay(repo, verifDir, pkgDir, pkgName string, harnessFiles map[strin
 		// the test process died while replaying `started` (uncaught panic in a goroutine, fatal error)
 		res[started] = ReplayResult{File: started, Status: "crashed", Panic: tail(out.String(), 600)}
 		skip = append(skip, started)
+		crashed = append(crashed, started)
+	}
+	if procs > 1 {
+		// seed dependence: the same replay files in fresh processes (fresh random hash seeds,
+		// fresh Go map iteration orders); any difference in what the harness hands to
+		// verifOutput is an order leak
+		bin := filepath.Join(tmp, "replay.test")
+		cmd := exec.Command("go", "test", "-c", "-vet=off", "-overlay", ovPath, "-o", bin, "./"+pkgDir)
+		cmd.Dir = repo
+		cmd.Env = append(os.Environ(), "GOFLAGS=-mod=mod", "GOPROXY=off")
+		if b, err := cmd.CombinedOutput(); err != nil {
+			allOut.Write(b)
+			return res, allOut.String(), fmt.Errorf("building the replay binary: %v", err)
+		}
+		for k := 1; k < procs; k++ {
+			cmd := exec.Command(bin, "-test.v", "-test.run", "^TestVerifReplay$", "-test.timeout", "120s")
+			cmd.Dir = filepath.Join(repo, pkgDir)
+			cmd.Env = append(os.Environ(), "VERIF_REPLAY_DIR="+dir, "VERIF_REPLAY_SKIP="+strings.Join(crashed, ","))
+			b, _ := cmd.CombinedOutput()
+			sc := bufio.NewScanner(bytes.NewReader(b))
+			sc.Buffer(make([]byte, 1<<20), 1<<26)
+			for sc.Scan() {
+				line := sc.Text()
+				if k := strings.Index(line, "VERIF-REPLAY "); k >= 0 {
+					var r ReplayResult
+					if json.Unmarshal([]byte(line[k+13:]), &r) == nil {
+						first, ok := res[filepath.Base(r.File)]
+						if ok && strings.Join(first.Outputs, "\x00") != strings.Join(r.Outputs, "\x00") {
+							first.SeedDependent = true
+							first.Outputs = append(first.Outputs, r.Outputs...)
+							res[filepath.Base(r.File)] = first
+						}
+					}
+				}
+			}
+		}
 	}
 	out := &allOut
 	return res, out.String(), nil
